@@ -29,10 +29,10 @@ static const uint8_t A40[] = {0x00, 0x01, 0x0A, 0x20, 0x41, 0x7E, 0x7F, 0x80, 0x
                               0xC2, 0xC3, 0xDF, 0xE0, 0xE1, 0xEC, 0xED, 0xEE, 0xEF, 0xF0, 0xF1, 0xF3, 0xF4, 0xF5, 0xF7, 0xF8, 0xFB, 0xFC, 0xFE, 0xFF};
 static const uint8_t A21[] = {0x00, 0x7F, 0x80, 0xBF, 0xC0, 0xC1, 0xC2, 0xDF, 0xE0, 0xED, 0xF4, 0xE1, 0xEF, 0xF0, 0xF1, 0xF5, 0xFF, 0x8F, 0x90, 0x9F, 0xA0};
 static const uint8_t A11[] = {0x00, 0x7F, 0x80, 0xBF, 0xC0, 0xC1, 0xC2, 0xDF, 0xE0, 0xED, 0xF4};
-static const uint8_t A8[] = {0x00, 0x7F, 0x80, 0xBF, 0xC0, 0xC1, 0xC2, 0xDF};
 static const uint8_t A6[] = {0x41, 0x80, 0xC0, 0xC1, 0xC2, 0xE1};
 static const uint8_t A5[] = {0x41, 0x80, 0xC2, 0xC0, 0xE1};
 static const uint8_t A3[] = {0x41, 0xC2, 0x80};
+static const uint8_t A2[] = {0xC2, 0x80};
 _Static_assert(sizeof(A40) == 40, "A40");
 _Static_assert(sizeof(A21) == 21, "A21");
 
@@ -89,7 +89,7 @@ static inline void check_w64(struct res *r, uint64_t w)
 }
 
 struct wsweep { int kind; uint32_t fixed; }; /* 0: all 32-bit words; 1: 64-bit, low half varies, high fixed; 2: high varies, low fixed */
-#define BLOCK_BITS 20
+#define BLOCK_BITS 16 /* block index = the two upper lanes; b % jobs spreads every lane-class pattern over all workers */
 
 static void w_words(struct res *r, int job, int njobs, void *arg)
 {
@@ -194,7 +194,7 @@ static void print_transcript(const struct kase *k, const struct outcome *o)
 	for (int i = 0; i < k->ncuts; i++) printf(" cut@%d", k->cuts[i]);
 	printf(", is_complete=%d on the last chunk\n", k->complete);
 	printf("expected    : %s  (RFC 3629 reference DFA ends in %s)\n", o->expected ? "true/accept" : "false/reject", d_name[o->d_end]);
-	printf("actual      : %s  end state {%02X,%u,%u}  (%d module calls)\n", o->actual ? "true" : "false", o->end.start_byte, o->end.length, o->end.next_byte, o->calls);
+	printf("actual      : %s  end state {%02X,%u,%u}  (%d module calls)\n", o->actual ? "true" : "false", o->end.start_byte, o->end.length, o->end.next_byte, o->calls - 1);
 	printf("byte-wise   : %s  end state {%02X,%u,%u}  (cjet_is_byte_sequence_valid on the whole string)\n", o->bytewise ? "true" : "false", o->end_bytewise.start_byte,
 	       o->end_bytewise.length, o->end_bytewise.next_byte);
 	if (o->violated) printf("result      : VIOLATED  key=%s\n              %s\n", o->key, o->msg);
@@ -225,6 +225,8 @@ static int do_replay(const char *path)
 	run_case(&k, &o);
 	printf("C18 replay %s\nrecorded key: %s\n", path, key);
 	print_transcript(&k, &o);
+	free(r);
+	fflush(stdout);
 	return o.violated ? 1 : 0;
 }
 
@@ -306,8 +308,7 @@ int main(int argc, char **argv)
 	run_sweep("S2 word32 at address 4 mod 8 x 21^4", E_WORD32, A21, 21, 4, 4, 4, 0, 0, 1, 3);
 
 	/* S3: 64-bit word entry point */
-	if (thorough) run_sweep("S3 word64 x 11^8 lane classes, boundary state", E_WORD64, A11, 11, 8, 0, 0, 0, 0, 1, 3);
-	else run_sweep("S3 word64 x 8^8 lane classes, boundary state", E_WORD64, A8, 8, 8, 0, 0, 0, 0, 1, 3);
+	run_sweep("S3 word64 x 11^8 lane classes, boundary state", E_WORD64, A11, 11, 8, 0, 0, 0, 0, 1, 3);
 	run_sweep("S3 word64 x 5^8 x one start state per reference state", E_WORD64, A5, 5, 8, 0, 0, 0, rep_lo, rep_hi, 3);
 	run_sweep("S3 word64 x 3^8 x every reachable start state", E_WORD64, A3, 3, 8, 0, 0, 0, all_lo, all_hi, 3);
 	if (thorough) {
@@ -334,7 +335,7 @@ int main(int argc, char **argv)
 
 	/* S5: auto-aligned front end */
 	{
-		const int Lmax5 = thorough ? 12 : 10;
+		const int Lmax5 = thorough ? 13 : 10;
 		char nm[160];
 		for (int L = 0; L <= Lmax5; L++) {
 			snprintf(nm, sizeof(nm), "S5 auto-aligned: 5^%d strings x 8 alignments, boundary state", L);
@@ -344,9 +345,13 @@ int main(int argc, char **argv)
 			snprintf(nm, sizeof(nm), "S5 auto-aligned: 5^%d strings x 8 alignments x mid-sequence start states", L);
 			run_sweep(nm, E_AUTO, A5, 5, L, 0, 7, 0, rep_lo, rep_hi, 3);
 		}
-		for (int L = 13; L <= (thorough ? 17 : 14); L++) {
+		for (int L = Lmax5 + 1; L <= (thorough ? 18 : 14); L++) {
 			snprintf(nm, sizeof(nm), "S5 auto-aligned: 3^%d strings x 8 alignments, boundary state", L);
 			run_sweep(nm, E_AUTO, A3, 3, L, 0, 7, 0, 0, 1, 3);
+		}
+		for (int L = (thorough ? 19 : 15); L <= (thorough ? 24 : 20); L++) {
+			snprintf(nm, sizeof(nm), "S5 auto-aligned: 2^%d strings over {C2,80} x 8 alignments, boundary state", L);
+			run_sweep(nm, E_AUTO, A2, 2, L, 0, 7, 0, 0, 1, 3);
 		}
 		for (int L = 8; L <= (thorough ? 12 : 10); L++) {
 			snprintf(nm, sizeof(nm), "S5 auto-aligned chunked: 3^%d strings x every single cut x 8 alignments", L);
@@ -365,10 +370,12 @@ finish:;
 
 	qsort(total.v, (size_t)total.nviol, sizeof(total.v[0]), viol_cmp);
 	int nrep = total.nviol > 20 ? 20 : total.nviol;
-	char paths[20][96];
-	if (nrep) mkdir(REPLAY_DIR, 0777);
+	char paths[20][200];
+	const char *rdir = getenv("C18_REPLAY_DIR"); /* only for mutation demonstrations on scratch copies */
+	if (!rdir || !*rdir) rdir = REPLAY_DIR;
+	if (nrep) mkdir(rdir, 0777);
 	for (int i = 0; i < nrep; i++) {
-		snprintf(paths[i], sizeof(paths[i]), REPLAY_DIR "/C18-%016llx.txt", (unsigned long long)fnv1a(total.v[i].key));
+		snprintf(paths[i], sizeof(paths[i]), "%s/C18-%016llx.txt", rdir, (unsigned long long)fnv1a(total.v[i].key));
 		if (write_replay(paths[i], &total.v[i].k, total.v[i].key, "see key") != 0) { fprintf(stderr, "c18: cannot write %s\n", paths[i]); return 2; }
 	}
 
@@ -396,9 +403,9 @@ finish:;
 	        thorough ? "all 2^32 words from the boundary state; 21^4 from every other reachable state; two-word calls over 11^8"
 	                 : "40^4 class-representative words from the boundary state (exhaustive for that alphabet only); 21^4 from every other reachable state; two-word calls over 6^8",
 	        thorough ? "11^8 lane classes; 2^32 low halves x 6 high halves; 2^32 high halves x 2 low halves; 5^8 and 3^8 from non-boundary states; two-word calls over 3^16"
-	                 : "8^8 lane classes; 5^8 and 3^8 from non-boundary states",
-	        thorough ? "lengths 0..12 over {41,80,C2,C0,E1}, 13..17 over {41,C2,80}, 8 alignments; mid-sequence starts for lengths 8..9; single cuts for lengths 8..12"
-	                 : "lengths 0..10 over {41,80,C2,C0,E1}, 13..14 over {41,C2,80}, 8 alignments; mid-sequence starts for length 8; single cuts for lengths 8..10",
+	                 : "11^8 lane classes; 5^8 and 3^8 from non-boundary states",
+	        thorough ? "lengths 0..13 over {41,80,C2,C0,E1}, 14..18 over {41,C2,80}, 19..24 over {C2,80}, 8 alignments; mid-sequence starts for lengths 8..9; single cuts for lengths 8..12 (5^20 of the design is out of reach: the alphabet shrinks with the length instead)"
+	                 : "lengths 0..10 over {41,80,C2,C0,E1}, 11..14 over {41,C2,80}, 15..20 over {C2,80}, 8 alignments; mid-sequence starts for length 8; single cuts for lengths 8..10",
 	        g_jobs);
 	fprintf(f, "  \"caps_hit\": [");
 	{
